@@ -15,7 +15,7 @@ CHECKS = {
          'Leaf fitting itself is not part of this property (a leaf with an empty validation set is scored on its own rows by the harness).'),
 
  'C01': ('DESIGN.md §4 C01',
-         'Coq proof (Permutation + sorted-uniqueness, induction over trees) of an executable model of routing/grouping/chunking/argsort-reorder + routing operators (splitarith) and the control skeleton of the prediction pipeline (predops) re-translated from the source each run + vm_compute correspondence through exact probe leaves + mpmath formula oracle',
+         'Coq proof (Permutation + sorted-uniqueness, induction over trees) of an executable model of routing/grouping/chunking/argsort-reorder + routing operators (splitarith) and the control skeleton of the prediction pipeline (predops) re-translated from the source each run + vm_compute correspondence through exact probe leaves + mpmath formula oracle + class-probability formula (decode per tree, then average) on confident ensembles',
          'Theorem for every tree, batch, batch size and row-wise leaf predictor: the traversal/reorder pipeline returns f(leaf reached by <=, x) per row; corollaries: batch-size, concatenation, permutation, row independence, ensemble mean. '
          'The real _predict_tree_hard/predict are run on probe leaves (real RFM.predict loop, stubbed kernel) and compared bit-for-bit with the model in Coq; real leaves are compared with the mpmath kernel expansion of the leaf reached by exact routing.',
          'Trusted: Coq kernel + vm_compute, probe leaf, Fraction/mpmath oracle. Kernel values themselves are C05. Rows within rounding distance of a threshold are excluded (as the property states).'),
@@ -52,7 +52,7 @@ CHECKS = {
          'Trusted: Coq kernel + vm_compute (PrimFloat), scripted metric object patched into the harness process only, numpy metric re-implementations.'),
 
  'C12': ('DESIGN.md §4 C12',
-         'Coq proofs over Q lists (clamp/normalise gives a distribution with explicit lower bound, mixtures of distributions, argmax range, label = argmax via the C01 routing theorem) + decoder op sequences re-translated from the source each run and proved equal to the model (convops), prediction skeleton (predops) + vm_compute of the Q model on the implementation\'s raw leaf outputs',
+         'Coq proofs over Q lists (clamp/normalise gives a distribution with explicit lower bound, mixtures of distributions, argmax range, label = argmax via the C01 routing theorem) + decoder op sequences re-translated from the source each run and proved equal to the model (convops), prediction skeleton (predops) + vm_compute of the Q model on the implementation\'s raw leaf outputs + witness theorem that decoding does not commute with the mean over trees',
          'Theorems for every finite raw vector, K, eps in (0,1/2): the decoded row has K strictly positive entries summing to one; convex mixtures (tree mean, soft routing) of such rows sum to one; the label is a class id; for a single hard tree the label vector is the row-wise argmax of the probability matrix. '
          'Real classification fits (2-6 classes, 95:5 imbalance, both encodings, all metrics, 1-3 trees incl. fewer trees built than requested, hard/soft, rows at 1e6) are checked row by row and decoded again by the Q model in Coq.',
          'Trusted: Coq kernel + vm_compute, float32->Q printing (tolerance 3e-5). Kernel values are C05; the prior/zero decoding algebra is C13.'),
@@ -103,7 +103,7 @@ CHECKS = {
          'partial: that torch.func.jacrev returns the partial derivatives of the closure it is given is PyTorch\'s contract (checked numerically per instance — this is how the multi-output cdist/vmap defect was found). Trusted: Coq kernel, Coquelicot, Interval, real-number axioms, mpmath, the gradops translator.'),
 
  'C14': ('DESIGN.md §4 C14',
-         'Coq proofs over Q (entrywise matrix algebra on lists) of the AGOP accumulation model + real-valued composition theorem with the gradient theorems of C04 (L2 kernel: accumulated matrix = sum over outputs and points of outer products of the true derivative of the leave-own-terms-out predictor) + refutation witness for centred accumulation + update_M / fit_M and the per-batch reductions re-translated from the source each run (agopops, gradops) + vm_compute of the model on the gradients the implementation itself returns',
+         'Coq proofs over Q (entrywise matrix algebra on lists) of the AGOP accumulation model + real-valued composition theorem with the gradient theorems of C04 (L2 kernel: accumulated matrix = sum over outputs and points of outer products of the true derivative of the leave-own-terms-out predictor) + refutation witness for centred accumulation + update_M / fit_M and the per-batch reductions re-translated from the source each run (agopops, gradops) + vm_compute of the model on the gradients the implementation itself returns + axiom-free MathComp theorem that the coded root formula U diag(sqrt(clip s)) U^T squares back / is symmetric PSD for orthogonal U (MatRoot; the SVD itself stays a per-instance contract) + fit_M vs the AGOP from automatic derivatives of the documented kernel',
          'Theorems for every number of points/outputs/dimension and every batch size: the accumulated matrix is the sum of gradient outer products, independent of the batch size (no centring), symmetric, positive semi-definite (x^T M x = sum (g.x)^2), diagonal mode = its diagonal, normalised entries <= 1. With centring ON the statement is refuted in the model (witness) and on the implementation (known finding). '
          'fit_M(inplace=False) of small fitted leaves (all CPU kernels, diag/full, 1-3 outputs, batch sizes 1..n+5) is compared with the Q model evaluated in Coq on the implementation\'s own get_function_grads output; root squares back; agop_best_model is the AGOP of the returned predictor.',
          'partial: matrix root (SVD) is a contract (checked numerically), gradient values are C04; the 1e-8 diagonal ridge that the matrix-power routine adds in place is accepted with or without (the property does not ask for it); get_agop / get_agop_diag reductions are re-translated from the source each run (gradops). KNOWN FINDING: center_grads=True is batch-size dependent.'),
